@@ -485,7 +485,7 @@ func genPaths(pkg *packages.Package) {
 			switch {
 			case base == "fsm.go" && rt == "*fsm" && fns[name]:
 			case base == "fsm.go" && rt == "*updateMessageWriter" && name == "WriteUpdate":
-			case base == "server.go" && rt == "*Server" && name == "handleInboundConn":
+			case base == "server.go" && rt == "*Server" && (name == "handleInboundConn" || name == "Serve"):
 				name = "server." + name
 			case base == "peer.go" && rt == "*peer" && peerFns[name]:
 				// the peer manager's helpers are listed under peer.<name> (run / stop exist on both types)
